@@ -247,8 +247,11 @@ def _streams(ctx: Ctx, item):
         if cut != pks:
             out.append((f"C06|stream-split|{fmt}", f"{len(pks)} packets concatenated are cut into {None if cut is None else len(cut)} by the {fmt} framing rule", case))
         if aio is not None and not out:
-            got = aio.client_frames(fmt, stream)
-            exp = aio.reference_delivery(fmt, pks)
+            # the Yacht Devices gateway prefixes received lines with time and direction; framing is unchanged
+            cl = [b"00:00:01.000 R " + p for p in pks] if fmt == "yd" else pks
+            got = aio.client_frames(fmt, b"".join(cl))
+            exp = aio.reference_delivery(fmt, cl)
+            ctx.klass("client_path_messages", len(exp))
             if got != exp:
                 out.append((f"C06|stream-client|{fmt}", f"client receive path delivered {len(got)} messages {got[:3]}, packets decode one by one to {len(exp)} {exp[:3]}", case))
         return out
